@@ -13,8 +13,8 @@ ID = "C10"
 LEAN_MODULE = "Ctrmml.Properties.C10"
 THEOREMS = ["C10_unique_data_spec", "C10_seq_bytes_unchanged", "C10_relocation_sound", "C10_song_numbering",
             "C10_unique_string_terminates", "C10_identifiers_unique_valid", "C10_linker_idempotent_query",
-            "C10_pcm_region_sound_partial", "C10_offset_window_counterexample",
-            "C10_pcm_histories_partial", "C10_pcm_later_songs_keep_partial", "C10_reader_agreement", "C10_stored_once", "C10_song_resolves_partial", "C10_group_key_agrees",
+            "C10_pcm_region_sound_partial", "C10_offset_window_regression",
+            "C10_pcm_histories", "C10_pcm_later_songs_keep", "C10_reader_agreement", "C10_stored_once", "C10_song_resolves_partial", "C10_group_key_agrees",
             "C10_resolver_songs_partial", "C10_full_bank_partial", "C10_full_bank_fresh_partial",
             "C10_full_headers_partial", "C10_full_partial"]
 LEVEL = "proof"
@@ -36,8 +36,7 @@ EXPLANATION = ("theorems over Model/Linker + Spec/Link for all histories; the mo
                "identifiers) is applied to the implementation's answers; the byte path is compared with the direct RIFF-object path")
 ASSUMPTIONS = ["linked banks below 2 GiB (int offset in get_seq_data), MDS files below 4 GiB",
                "\"C\" locale character classes; bytes >= 0x80 in names are dropped (glibc tables)",
-               "binary32 rounding of rate/2187.5 never crosses a rounding boundary for integer rates (checked on every boundary rate)",
-               "partial: PCM headers with a non-zero start offset are excluded from the PCM theorems (known finding D11)"]
+               "binary32 rounding of rate/2187.5 never crosses a rounding boundary for integer rates (checked on every boundary rate)"]
 TRUSTED = ["Spec/Link.lean (MDS reader, bank resolver, group symbol and order, header reader)"]
 TECHNIQUE = "Lean 4 proof (invariant over linker histories by induction on the operation list, refinement of the chunk walk to the spec reader, layout lemmas, fuel bound for unique_string) + differential correspondence model<->mdsdrv.cpp + spec resolver on the real output"
 LEVEL_TEXT = ("Machine-checked theorems over a Lean model of MDSDRV_Linker, for all inputs. The main one (C10_full_partial): for EVERY list "
@@ -47,8 +46,8 @@ LEVEL_TEXT = ("Machine-checked theorems over a Lean model of MDSDRV_Linker, for 
               "bytes unchanged outside the pointer slots; every slot's pointer word with its flag bit addressing a byte-identical data "
               "entry or a PCM header with the rate's pitch code and the sample's size whose address selects exactly the sample's bytes "
               "in the PCM bank; non-overlapping song spans; identical data stored once, different data never merged; one valid unique "
-              "identifier per song with MIN/MAX bracketing each group. Extra hypotheses: PCM start offsets 0 (known finding D11), bank "
-              "below 4 GiB, fewer than 65536 songs (32-bit offsets / 16-bit counts of the format). Supporting theorems, each for all "
+              "identifier per song with MIN/MAX bracketing each group. Its only extra hypotheses are the two limits of the format: bank "
+              "below 4 GiB, fewer than 65536 songs (32-bit offsets / 16-bit counts). Supporting theorems, each for all "
               "histories: the PCM/data invariant over arbitrary add_song histories on top of C14's allocator invariant (later songs never "
               "disturb earlier ones, bank rule), agreement of the linker's chunk walk with the spec reader, add_song = fold over exactly "
               "the entries read, group key = spec group symbol and map order = spec order, layout / relocation / stored-once / numbering "
@@ -56,8 +55,8 @@ LEVEL_TEXT = ("Machine-checked theorems over a Lean model of MDSDRV_Linker, for 
 LEVEL_NOTE = ("Trusted: Lean kernel; Model/Linker.lean (+ Model/Riff, Model/Wave), tied to mdsdrv.cpp by differential testing only; "
               "Spec/Link.lean (the resolver and reader the theorem is stated against); the converter is not modelled here (its real "
               "output is the input). Decided per case by the oracle and not by proof: files the strict spec reader rejects but the "
-              "linker accepts are covered by the history theorems (C10_pcm_histories_partial) but not by the resolver theorem; PCM "
-              "headers with a start offset (D11). See Properties/C10.lean for the exact hypotheses of each theorem.")
+              "linker accepts are covered by the history theorems (C10_pcm_histories) but not by the resolver theorem. See "
+              "Properties/C10.lean for the exact hypotheses of each theorem.")
 
 EXPECT = {}   # stage-2 request -> 'direct=' answer of stage 1
 
@@ -378,7 +377,7 @@ def corpus():
     }
     for k, v in bad.items():
         out.append((link_req([("a", ok), ("x", v)]), ("corpus", "malformed", "malformed-" + k)))
-    # D11 (known finding): a PCM header with a start offset is re-homed with the bytes before the window
+    # D11 (repaired; regression): a PCM header with a start offset used to be re-homed with the bytes before the window
     out.append((link_req([("a", mds(seq=SEQ0, dblk=[(b"pcmh", 0, sample(0, 4, 12))], pcmd=bytes(range(16, 48))))]), ("corpus", "D11-start-offset")))
     # a sample equal to a stored one plus a zero tail, then a third sample: the longer sample must
     # not be matched against unallocated (zero) rom behind the stored one
@@ -524,7 +523,7 @@ def all_cases(rng, tier):
     for k in range(60 if quick else 900):
         ns = rng.choice([1, 2, 3, 4, 6])
         songs, tags = [], set(["raw", "songs-%d" % ns])
-        d11 = rng.random() < 0.05
+        d11 = rng.random() < 0.25   # PCM headers with start offsets (D11, repaired)
         for i in range(ns):
             f, t = raw_song(rng, d11=d11)
             tags |= t
@@ -595,8 +594,6 @@ def finding_key(case, impl, judge):
     if impl.startswith("crash") or impl == "timeout" or impl.startswith("uncaught"):
         m = re.search(r"(\w+\.cpp:\d+)", impl)
         return "crash:" + (m.group(1) if m else (impl.split(" ")[1] if " " in impl else impl))
-    if judge.startswith("fail d11:offset-window"):
-        return "d11:offset-window"
     if judge.startswith("fail"):
         w = judge.split()
         what = re.sub(r"\d+", "N", " ".join(w[2:6]))
